@@ -53,7 +53,14 @@ var verifUnknownNames = []string{"keys", "flushall", "select", "cluster", "getx"
 // HarnessC17Admit: one request <cmd> with n one-byte arguments, cmd ranging over every documented
 // command (any letter case) and a few undocumented ones, followed in the same read by "GET b".
 // pw: 0 = no password configured, 1 = password "p".
-func HarnessC17Admit(n, pw int) {
+func HarnessC17Admit(n, pw int) { verifC17Admit(n, pw, 0) }
+
+// HarnessC17AdmitHist: as HarnessC17Admit, for a client that connects after another one went away in the
+// middle of a request (cut inside a bulk argument of announced length 100): hist 1 = the earlier client
+// disconnected (the new one gets its descriptor number), hist 2 = it is still connected.
+func HarnessC17AdmitHist(n, hist int) { verifC17Admit(n, 0, hist) }
+
+func verifC17Admit(n, pw, hist int) {
 	var sopts []Option
 	if pw == 1 {
 		sopts = append(sopts, WithRedisPassword("p"))
@@ -62,6 +69,15 @@ func HarnessC17Admit(n, pw int) {
 	w, _ := verifWorld2(o, sopts...)
 	// the backend handshake is not under test here: connections come up initialised
 	authCmd = ""
+	if hist > 0 {
+		old := w.NewClient("10.0.0.7:5000")
+		w.Feed(old, []byte("*3\r\n$3\r\nset\r\n$1\r\nk\r\n$100\r\nab"))
+		w.Feed(old, []byte("cd"))
+		verifrt.Assert(old.Opened() && len(w.Sent(old)) == 0 && len(w.Servers) == 0, "prefix_of_request_not_acted_on")
+		if hist == 1 {
+			w.HangUp(old)
+		}
+	}
 	c := w.NewClient("10.0.0.1:5000")
 	sup := codec.VerifSupported()
 	idx := verifrt.Choice("cmd", len(sup)+len(verifUnknownNames))
@@ -250,6 +266,7 @@ func HarnessC17RspSize(rl, lo, hi int) {
 }
 
 func init() {
+	verifrt.Register("HarnessC17AdmitHist", func(p []int64) { HarnessC17AdmitHist(int(p[0]), int(p[1])) })
 	verifrt.Register("HarnessC17Admit", func(p []int64) { HarnessC17Admit(int(p[0]), int(p[1])) })
 	verifrt.Register("HarnessC17Size", func(p []int64) { HarnessC17Size(int(p[0]), int(p[1]), int(p[2]), int(p[3])) })
 	verifrt.Register("HarnessC17RspSize", func(p []int64) { HarnessC17RspSize(int(p[0]), int(p[1]), int(p[2])) })
